@@ -277,6 +277,14 @@ def run_unit(p, tier, seed):
                     must_raise('message-length', lambda: f(b'k' * 16, bytes(am)), {'declared_message': ml, 'actual': am})
             if f(b'k' * 16, bytes(ml)) != p_hash(b'k' * 16, bytes(ml), 20, 'sha1'):
                 r.v(PROPERTY, 'HmacPRF', 'differs-from-rfc5246', 'declared-message', {'message_length': ml}, 'reference', 'differs')
+        # both declared, every digest: each contract is enforced on its own
+        for h in PRF_DIGESTS:
+            for kl, ml in ((16, 8), (33, 24), (1, 1)):
+                f = PRF(output_length=24, key_length=kl, message_length=ml, hash_func_name=h)
+                for ak, am in ((kl, ml + 1), (kl, ml - 1), (kl + 1, ml), (kl - 1, ml), (kl + 1, ml + 1)):
+                    must_raise('both-declared', lambda: f(bytes(ak), bytes(am)), {'digest': h, 'declared': [kl, ml], 'actual': [ak, am]})
+                if f(b'K' * kl, b'M' * ml) != p_hash(b'K' * kl, b'M' * ml, 24, h):
+                    r.v(PROPERTY, 'HmacPRF', 'differs-from-rfc5246', 'both-declared', {'digest': h, 'declared': [kl, ml]}, 'reference', 'differs')
         for name in ('nope', 'sha-1', 'SHA1x', ''):
             must_raise('unknown-digest-prf', lambda: PRF(output_length=8, hash_func_name=name)(b'k', b'm'), {'digest': name})
             must_raise('unknown-digest-hash', lambda: get_hash_implementation(name)(output_length=8)(b'm'), {'hash': name})
